@@ -36,6 +36,25 @@ def gen_T11():
     slices = [ast.unparse(n.value) for n in ast.walk(sm) if isinstance(n, ast.Assign) and len(n.targets) == 1
               and ast.unparse(n.targets[0]) == 'self.outbuffer']
     need(slices == ['self.outbuffer[sent:]'], '_sendIfMsgs: expected `self.outbuffer = self.outbuffer[sent:]`, got %r' % (slices,))
+    # EAGAIN accounting (seeded change C11_7): the counter is reset by every successful send() and every successful
+    # recv(), so _handleSocketError counts CONSECUTIVE EAGAINs.  Pin the send block statement by statement.
+    stry = [n for n in ast.walk(sm) if isinstance(n, ast.Try)
+            and any(isinstance(c, ast.Call) and ast.unparse(c.func) == 'self.conn.send' for c in ast.walk(n))]
+    need(len(stry) == 1, '_sendIfMsgs: expected exactly one try around self.conn.send, got %d' % len(stry))
+    body = [ast.unparse(b) for b in stry[0].body]
+    need(body == ['sent = self.conn.send(self.outbuffer)', 'self.outbuffer = self.outbuffer[sent:]', 'self.eagains = 0'],
+         '_sendIfMsgs: the try body is no longer send / slice / `self.eagains = 0`: %r' % (body,))
+    need(not stry[0].orelse and not stry[0].finalbody and len(stry[0].handlers) == 1
+         and handler_names(stry[0].handlers[0]) == ['socket.error']
+         and [ast.unparse(b) for b in stry[0].handlers[0].body] == ['self._handleSocketError(e)'],
+         '_sendIfMsgs: expected `except socket.error as e: self._handleSocketError(e)` and no else/finally')
+    rd = find_def(t, '_read', 'SocketDriver')
+    resets = [ast.unparse(b) for n in ast.walk(rd) if isinstance(n, ast.Try) for b in n.body]
+    need('self.inbuffer += new_data' in resets and 'self.eagains = 0' in resets
+         and resets.index('self.eagains = 0') == resets.index('self.inbuffer += new_data') + 1,
+         '_read: `self.eagains = 0` no longer follows `self.inbuffer += new_data`')
+    hbody = [ast.unparse(b) for n in ast.walk(h) if isinstance(n, ast.If) for b in n.orelse]
+    need('self.eagains += 1' in hbody, '_handleSocketError: the else branch no longer does `self.eagains += 1`: %r' % (hbody,))
     # _read: the line separator of the split and the recv size
     r = find_def(t, '_read', 'SocketDriver')
     seps = [n.args[0].value for n in ast.walk(r)
